@@ -107,6 +107,8 @@ def run(ctx):
                         v = ref[k][r]
                         if isinstance(v, str):
                             good = l[j] == v
+                        elif isinstance(v, (bool, np.bool_)):
+                            good = l[j] == str(bool(v))       # booleans are written as True / False
                         else:
                             try:
                                 good = float(l[j]) == float(v)
